@@ -187,6 +187,13 @@ func (p *programSplitter) readChange() *Change {
 	// Can't use a struct literal here because readName and readMeta advance
 	// p.pos between HeaderPos and AtPos.
 	var c Change
+
+	// Blank lines before the header of the first change are not significant.
+	// (Before a later change they are part of the previous change's patch.)
+	for !p.eof && len(bytes.TrimSpace(p.text)) == 0 {
+		p.next()
+	}
+
 	c.Comments = p.lastComments
 	c.HeaderPos = p.pos
 	c.Name = p.readName()
